@@ -319,8 +319,13 @@ def run(rep, pool, driver, tier):
     r = rng('C15')
     quick = tier == 'quick'
     cases = []
+    r_cr = rng('C15/carriage_return')
     while len(cases) < (60 if quick else 700):
         c = run_C09.gen_case(r, tier)
+        if r_cr.random() < 0.3:
+            # a lone CR inside a word of the corpus is a line break for every reader (universal newlines); a
+            # creation stage that keeps it inside a token hands the next stage a broken line (seeded change C15_b)
+            run_C09.inject_cr(r_cr, c)
         if c.get('exists') or not run_C09.table_ok(c):
             continue
         cases.append(c)
